@@ -6,7 +6,7 @@
    with `_refuted` witnesses: open finding D51 (YBR_FULL stored unconverted,
    converted to RGB on decoding). *)
 From Coq Require Import String ZArith List Bool.
-From HD Require Import Base.Val C07_Model C07_Proofs C07_Proofs_Table C07_Proofs_RLE C07_Proofs_Ext C07_Proofs_Full C07_Proofs_Accept C07_Proofs_AcceptRLE.
+From HD Require Import Base.Val C07_Model C07_Proofs C07_Proofs_Table C07_Proofs_RLE C07_Proofs_Ext C07_Proofs_Full C07_Proofs_Accept C07_Proofs_AcceptRLE C07_Proofs_Entry.
 Import ListNotations.
 Open Scope Z_scope.
 
@@ -399,3 +399,265 @@ Example C07_entry_nonvacuous :
   /\ decode_frame_model r 0 [1; 2; 3; 4; 5; 6] = Err EV.
 Proof. cbv zeta. repeat split; vm_compute; reflexivity. Qed.
 Print Assumptions C07_entry_nonvacuous.
+
+(* =========================================================================
+   decode_frame as the WHOLE entry point ([decode_frame_entry]: bit-packed path,
+   enum conversions, planar guard, several native frames / planar configuration
+   1, encapsulate (empty value refused, odd value padded), RLE decoder or codec)
+   ========================================================================= *)
+
+(* --- the property sentence as ONE dichotomy, every lossless syntax ------------ *)
+(* FULL statement: without [open_gap p = false]; false for the current code (D51,
+   witnesses C07_native_roundtrip_refuted_ybr / C07_rle_roundtrip_refuted_ybr).
+   Only premise: the JPEG-LS (NEAR = 0) / JPEG 2000 Lossless codec returns a
+   non-empty code stream which its decoder reads back from the encapsulated
+   (even-padded) fragment. *)
+Theorem C07_property_sentence_partial :
+  forall (codec_encode : params -> list Z -> option (list Z))
+         (codec_decode : params -> list Z -> res decoded),
+  (forall p f bs,
+     p_ts p = TJLS \/ p_ts p = TJ2KL ->
+     accepts default_tables p (list_min f) (list_max f) = true ->
+     Z.of_nat (length f) = npix p -> values_fit p f ->
+     codec_encode p f = Some bs ->
+     bs <> [] /\ codec_decode p (pad_even bs) = Ok (DArr (out_shape p) f)) ->
+  forall p f index,
+    lossless_ts p -> 1 <= p_rows p -> 1 <= p_cols p -> In (p_dsize p) [1; 2; 4; 8] ->
+    Z.of_nat (length f) = npix p -> open_gap p = false ->
+    (p_ts p <> TRLE -> values_fit p f) ->
+    (exists e, encode_any codec_encode default_tables p f = Err e)
+    \/ (exists bs, encode_any codec_encode default_tables p f = Ok bs
+                   /\ representable p = true
+                   /\ decode_frame_entry codec_decode p index bs = Ok (DArr (out_shape p) f)).
+Proof. exact property_sentence. Qed.
+Print Assumptions C07_property_sentence_partial.
+
+Theorem C07_entry_lossless_roundtrip_partial :
+  forall (codec_encode : params -> list Z -> option (list Z))
+         (codec_decode : params -> list Z -> res decoded),
+  (forall p f bs,
+     p_ts p = TJLS \/ p_ts p = TJ2KL ->
+     accepts default_tables p (list_min f) (list_max f) = true ->
+     Z.of_nat (length f) = npix p -> values_fit p f ->
+     codec_encode p f = Some bs ->
+     bs <> [] /\ codec_decode p (pad_even bs) = Ok (DArr (out_shape p) f)) ->
+  forall p f bs index,
+    lossless_ts p ->
+    encode_any codec_encode default_tables p f = Ok bs ->
+    open_gap p = false ->
+    Z.of_nat (length f) = npix p -> (p_ts p <> TRLE -> values_fit p f) -> p_dsize p <= 8 ->
+    decode_frame_entry codec_decode p index bs = Ok (DArr (out_shape p) f).
+Proof. exact entry_lossless_roundtrip. Qed.
+Print Assumptions C07_entry_lossless_roundtrip_partial.
+
+(* no two different frames are turned into the same bytes ("bytes that decode to
+   something else" cannot arise from a second frame either) *)
+Theorem C07_encode_injective_partial :
+  forall (codec_encode : params -> list Z -> option (list Z))
+         (codec_decode : params -> list Z -> res decoded),
+  (forall p f bs,
+     p_ts p = TJLS \/ p_ts p = TJ2KL ->
+     accepts default_tables p (list_min f) (list_max f) = true ->
+     Z.of_nat (length f) = npix p -> values_fit p f ->
+     codec_encode p f = Some bs ->
+     bs <> [] /\ codec_decode p (pad_even bs) = Ok (DArr (out_shape p) f)) ->
+  forall p f g bs,
+    lossless_ts p ->
+    encode_any codec_encode default_tables p f = Ok bs ->
+    encode_any codec_encode default_tables p g = Ok bs ->
+    open_gap p = false -> p_dsize p <= 8 ->
+    Z.of_nat (length f) = npix p -> Z.of_nat (length g) = npix p ->
+    (p_ts p <> TRLE -> values_fit p f /\ values_fit p g) ->
+    f = g.
+Proof. exact encode_any_injective. Qed.
+Print Assumptions C07_encode_injective_partial.
+
+(* what cannot be represented is refused by EVERY encoder path (no codec premise) *)
+Theorem C07_unrepresentable_refused_any_partial :
+  forall (codec_encode : params -> list Z -> option (list Z)) p f,
+  1 <= p_rows p -> 1 <= p_cols p -> In (p_dsize p) [1; 2; 4; 8] ->
+  representable p = false -> open_gap p = false ->
+  exists e, encode_any codec_encode default_tables p f = Err e.
+Proof. exact unrepresentable_refused_any. Qed.
+Print Assumptions C07_unrepresentable_refused_any_partial.
+
+(* --- the entry point's own refusals ---------------------------------------------- *)
+Theorem C07_entry_refuses : forall cd p index value,
+  is_native default_tables p && (p_balloc p =? 1) = false ->
+  entry_guard p = true -> decode_frame_entry cd p index value = Err EV.
+Proof. exact entry_refuses. Qed.
+Print Assumptions C07_entry_refuses.
+
+Theorem C07_entry_ok_guard : forall cd p index value d,
+  decode_frame_entry cd p index value = Ok d ->
+  is_native default_tables p && (p_balloc p =? 1) = true
+  \/ ((p_pixrep p = 0 \/ p_pixrep p = 1) /\ p_pi p <> None
+      /\ (1 < spp p -> p_planar p = Some 0 \/ p_planar p = Some 1)
+      /\ (is_native default_tables p = false -> value <> [])).
+Proof. exact entry_ok_guard. Qed.
+Print Assumptions C07_entry_ok_guard.
+
+(* the frame index has no effect except on bit-packed frames that do not fill bytes *)
+Theorem C07_entry_index_irrel : forall cd p index value,
+  is_native default_tables p && (p_balloc p =? 1) = false \/ npix p mod 8 = 0 ->
+  decode_frame_entry cd p index value = decode_frame_entry cd p 0 value.
+Proof. exact entry_index_irrel. Qed.
+Print Assumptions C07_entry_index_irrel.
+
+(* --- decoding with OTHER parameters than the encoding call ----------------------- *)
+Theorem C07_decode_words_other_params : forall p q f,
+  p_balloc p <> 1 -> 1 <= p_dsize p <= 8 -> p_balloc q = 8 * p_dsize p ->
+  1 <= p_bstored q <= p_balloc q -> (spp q = 1 \/ spp q = 3) ->
+  Z.of_nat (length f) = npix q ->
+  (spp q =? 3) && pi_is q YBR_FULL = false ->
+  decode_words q (encode_native p f) = Ok (DArr (out_shape q) (map (stored_view q) f)).
+Proof. exact decode_words_encode_native. Qed.
+Print Assumptions C07_decode_words_other_params.
+
+Theorem C07_entry_native_other_params : forall cd p q f bs index,
+  native_ts p -> native_ts q ->
+  encode_frame default_tables p f = Ok bs ->
+  p_balloc p <> 1 -> p_dsize p <= 8 ->
+  p_balloc q = p_balloc p -> npix q = npix p -> Z.of_nat (length f) = npix p ->
+  1 <= p_bstored q <= p_balloc q -> (spp q = 1 \/ spp q = 3) ->
+  entry_guard q = false ->
+  (spp q =? 3) && pi_is q YBR_FULL = false ->
+  decode_frame_entry cd q index bs
+  = Ok (DArr (out_shape q)
+         (if (1 <? spp q) && optZ_eqb (p_planar q) 1
+          then planar_frames (Z.to_nat (p_rows q * p_cols q)) (Z.to_nat (spp q)) (map (stored_view q) f)
+          else map (stored_view q) f)).
+Proof. exact entry_native_other_params. Qed.
+Print Assumptions C07_entry_native_other_params.
+
+Theorem C07_decode_rle_other_params : forall p q f bs,
+  p_ts p = TRLE ->
+  encode_rle default_tables p f = Ok bs ->
+  Z.of_nat (length f) = npix p ->
+  p_rows q = p_rows p -> p_cols q = p_cols p -> spp q = spp p -> p_balloc q = p_balloc p ->
+  1 <= p_bstored q <= p_balloc q -> (1 < spp q -> p_planar q <> None) ->
+  (spp q =? 3) && pi_is q YBR_FULL = false ->
+  decode_rle q bs = Ok (DArr (out_shape q) (map (stored_view q) f)).
+Proof. exact decode_rle_other_params. Qed.
+Print Assumptions C07_decode_rle_other_params.
+
+Theorem C07_entry_rle_other_params : forall cd p q f bs index,
+  p_ts p = TRLE -> p_ts q = TRLE ->
+  encode_rle default_tables p f = Ok bs ->
+  Z.of_nat (length f) = npix p ->
+  p_rows q = p_rows p -> p_cols q = p_cols p -> spp q = spp p -> p_balloc q = p_balloc p ->
+  1 <= p_bstored q <= p_balloc q -> entry_guard q = false ->
+  (spp q =? 3) && pi_is q YBR_FULL = false ->
+  decode_frame_entry cd q index bs = Ok (DArr (out_shape q) (map (stored_view q) f)).
+Proof. exact entry_rle_other_params. Qed.
+Print Assumptions C07_entry_rle_other_params.
+
+(* --- truncated native values are refused at the entry point (words and bits, any index) *)
+Theorem C07_entry_truncated_refused : forall cd p index value,
+  native_ts p -> 1 <= spp p -> 1 <= p_rows p -> 1 <= p_cols p ->
+  (if p_balloc p =? 1
+   then 8 * Z.of_nat (length value) < (index * npix p) mod 8 + npix p
+   else Z.of_nat (length value) < npix p * (p_balloc p / 8)) ->
+  decode_frame_entry cd p index value = Err EV.
+Proof. exact entry_truncated. Qed.
+Print Assumptions C07_entry_truncated_refused.
+
+(* --- error classes of the entry point (native, RLE Lossless): ValueError / RuntimeError *)
+Theorem C07_entry_error_class : forall cd p index value e,
+  native_ts p \/ p_ts p = TRLE ->
+  decode_frame_entry cd p index value = Err e -> e = EV \/ e = ERT.
+Proof. exact entry_error_class. Qed.
+Print Assumptions C07_entry_error_class.
+
+(* --- size safety: ANY byte string, ANY parameters (native and RLE Lossless) ------- *)
+Theorem C07_entry_output_size : forall cd p index value sh vals,
+  native_ts p \/ p_ts p = TRLE -> 1 <= p_rows p -> 1 <= p_cols p -> 1 <= spp p ->
+  decode_frame_entry cd p index value = Ok (DArr sh vals) ->
+  Z.of_nat (length vals) = shape_size sh
+  /\ exists nf, 1 <= nf /\ sh = (if 1 <? nf then [nf] else []) ++ out_shape p.
+Proof. exact entry_output_size. Qed.
+Print Assumptions C07_entry_output_size.
+
+(* --- damaged RLE streams: necessary conditions of a successful decode ------------- *)
+Theorem C07_rle_decode_frame_ok : forall rows cols s k src ws,
+  rle_decode_frame rows cols s k src = Ok ws ->
+  (64 <= length src)%nat /\ le_word (firstn 4 src) = Z.of_nat (s * k) /\ (s * k <= 15)%nat
+  /\ length ws = (Z.to_nat (rows * cols) * s)%nat.
+Proof. exact rle_decode_frame_Ok. Qed.
+Print Assumptions C07_rle_decode_frame_ok.
+
+Theorem C07_decode_rle_short : forall p v, (length v < 64)%nat ->
+  forall sh vals, decode_rle p v <> Ok (DArr sh vals).
+Proof. exact decode_rle_short. Qed.
+Print Assumptions C07_decode_rle_short.
+
+(* an RLE stream produced by the encoder: at least the header, even length (so that
+   encapsulate neither refuses nor pads it) *)
+Theorem C07_rle_stream_shape : forall p f bs, rle_encode_frame p f = Ok bs ->
+  (64 <= length bs)%nat /\ Nat.even (length bs) = true.
+Proof. exact rle_stream_shape. Qed.
+Print Assumptions C07_rle_stream_shape.
+
+(* --- byte count of a bit-packed frame ----------------------------------------------- *)
+Theorem C07_encode_bits_length : forall p f,
+  p_balloc p = 1 -> Z.of_nat (length f) = npix p -> npix p mod 8 = 0 ->
+  Z.of_nat (length (encode_native p f)) = npix p / 8 + (npix p / 8) mod 2.
+Proof. exact encode_bits_length. Qed.
+Print Assumptions C07_encode_bits_length.
+
+(* --- 1-bit JPEG 2000 Lossless: astype(bool) in front of the codec is the identity
+       exactly on 0/1 content ------------------------------------------------------ *)
+Theorem C07_as_bool_exact_iff : forall f, as_bool f = f <-> Forall (fun v => 0 <= v < 2 ^ 1) f.
+Proof. exact as_bool_exact_iff. Qed.
+Print Assumptions C07_as_bool_exact_iff.
+
+(* non-vacuity: the premise is satisfiable (a codec that never produces bytes), both
+   branches of the dichotomy occur, frames ARE re-ordered / refused / re-interpreted *)
+Example C07_entry_examples :
+  let p := mkP TRLE 2 3 false 0 16 12 (Some MONO2) 1 None KInt 2 in
+  let f := [-2048; 2047; 0; -1; -1; -1] in
+  let u := mkP TRLE 2 3 false 0 32 32 (Some MONO2) 0 None KUInt 4 in
+  let q := mkP TExplicit 1 2 true 3 8 8 (Some RGB) 0 (Some 1) KUInt 1 in
+  let w := mkP TExplicit 1 2 false 0 16 16 (Some MONO2) 0 None KUInt 2 in
+  let w12 := mkP TImplicit 2 1 false 0 16 12 (Some MONO1) 1 None KUInt 2 in
+  (exists bs, encode_any no_codec_enc default_tables p f = Ok bs
+              /\ decode_frame_entry no_codec_dec p 5 bs = Ok (DArr [2; 3] f))
+  /\ representable p = true /\ representable u = false
+  /\ encode_any no_codec_enc default_tables u [1; 2; 3; 4; 5; 6] = Err EV
+  /\ decode_frame_entry no_codec_dec q 0 [0; 1; 2; 3; 4; 5; 6; 7; 8; 9; 10; 11]
+     = Ok (DArr [2; 1; 2; 3] [0; 2; 4; 1; 3; 5; 6; 8; 10; 7; 9; 11])
+  /\ decode_frame_entry no_codec_dec p 0 [] = Err EV
+  /\ decode_frame_entry no_codec_dec p 0 [1; 2; 3] = Err ERT
+  /\ encode_frame default_tables w [4096; 63488] = Ok [0; 16; 0; 248]
+  /\ decode_frame_entry no_codec_dec w12 0 [0; 16; 0; 248] = Ok (DArr [2; 1] [0; -2048]).
+Proof. exact entry_examples. Qed.
+Print Assumptions C07_entry_examples.
+
+Example C07_entry_premise_satisfiable : forall p f bs,
+  p_ts p = TJLS \/ p_ts p = TJ2KL ->
+  accepts default_tables p (list_min f) (list_max f) = true ->
+  Z.of_nat (length f) = npix p -> values_fit p f ->
+  no_codec_enc p f = Some bs ->
+  bs <> [] /\ no_codec_dec p (pad_even bs) = Ok (DArr (out_shape p) f).
+Proof. exact no_codec_premise. Qed.
+Print Assumptions C07_entry_premise_satisfiable.
+
+(* --- exception classes of encode_frame (any validation tables) ---------------------- *)
+Theorem C07_check_error_class : forall T p lo hi e,
+  check T p lo hi = Some e -> e = EV \/ e = EK \/ e = EA.
+Proof. exact check_error_class. Qed.
+Print Assumptions C07_check_error_class.
+
+Theorem C07_encode_any_error_class :
+  forall (codec_encode : params -> list Z -> option (list Z)) T p f e,
+  encode_any codec_encode T p f = Err e -> e = EV \/ e = EK \/ e = EA \/ e = ERT.
+Proof. exact encode_any_error_class. Qed.
+Print Assumptions C07_encode_any_error_class.
+
+(* --- the older entry-point model agrees with decode_frame_entry where it is faithful -- *)
+Theorem C07_entry_model_agree : forall cd p index value,
+  (native_ts p /\ (1 <? spp p) && optZ_eqb (p_planar p) 1 = false)
+  \/ (p_ts p = TRLE /\ value <> [] /\ Nat.even (length value) = true) ->
+  decode_frame_entry cd p index value = decode_frame_model p index value.
+Proof. exact entry_model_agree. Qed.
+Print Assumptions C07_entry_model_agree.
